@@ -231,7 +231,8 @@ MANIFEST_TEXT = {
         text="Lean theorems (Gsp.Props.C15 over Gsp.Safe): the default mode is safe and the last explicit option wins (default_safe, options_last_wins); in safe mode a document with an undefined property is an error, so success "
              "implies nothing was dropped (safe_rejects_undefined, safe_success_covers); unsafe mode equals the safe merklization of the stripped document (unsafe_equals_stripped). Tie: real MerklizeJSONLD in the three "
              "configurations on documents with injected undefined properties vs the model fed with the stripped dataset; direct predicates: safe => error, unsafe => root of the stripped document.",
-        note="PARTIAL by nature: the decision which properties are undefined and their removal are json-gold's (third party); Lean proves the specification side and the repository's plumbing, the library is compared."),
+        note="PARTIAL by nature: the removal of undefined properties happens inside json-gold (third party); the model specifies which properties are undefined (term resolution under scoped contexts) and the repository's plumbing, "
+             "and the library's behaviour is compared with that on every case."),
     "C10": dict(
         text="Lean theorems (Gsp.Props.C10): valueToHash h dt raw equals the stored leaf value convert dt lit >>= enc h for every natural rendering of one value: identical strings (standalone_eq_leaf_string), "
              "any two spellings denoting the same integer incl. float64 canonical spellings (standalone_eq_leaf_int), JSON booleans and 0/1 (standalone_eq_leaf_bool, standalone_bool_01), doubles under idempotent "
